@@ -525,12 +525,18 @@ namespace bloch::update {
                                                  const std::string& assetName) {
             std::istringstream in(content);
             std::string line;
+            // sha256sum format: "<hash>  <file>" (or "<hash> *<file>" in binary mode). The entry
+            // must name exactly this asset; a substring match would also accept e.g. the line of
+            // "<asset>.sig" listed earlier in the file.
             while (std::getline(in, line)) {
-                if (line.find(assetName) == std::string::npos)
-                    continue;
                 std::istringstream parts(line);
                 std::string hash;
-                if (parts >> hash)
+                std::string name;
+                if (!(parts >> hash >> name))
+                    continue;
+                if (!name.empty() && name.front() == '*')
+                    name.erase(name.begin());
+                if (name == assetName)
                     return hash;
             }
             return std::nullopt;
